@@ -161,6 +161,3 @@ func extractTemplate() string {
 	return b.String()
 }
 
-func extractSites() string {
-	return genHeader + "namespace Sqlc.Gen\nend Sqlc.Gen\n"
-}
